@@ -397,7 +397,9 @@ def sqlite_columns(tier):
         if tbl == 'group_state_snapshots':
             continue
         n += 1
-        foreign = [x for x in plist if re.fullmatch(r'\w+', x) and x not in decoded and x not in ('row_data', 'row_key') and not re.fullmatch(r'\d+', x)]
+        src_all = S.source('lib.rs')
+        is_const = lambda x: re.fullmatch(r'[A-Z][A-Z0-9_]+', x) is not None     # SCREAMING_CASE: a named constant / static (rustc warns about anything else named so); not a re-keying
+        foreign = [x for x in plist if re.fullmatch(r'\w+', x) and x not in decoded and x not in ('row_data', 'row_key') and not re.fullmatch(r'\d+', x) and not is_const(x)]
         if foreign:
             r.fail(f'O2/{tbl}/restore-value-not-from-snapshot', f'the restore INSERT into {tbl} binds {foreign}, which is not decoded from the snapshot row: the restored row is keyed / filled with a value '
                    'other than the one that was snapshotted (e.g. the raw group id instead of the MlsCodec-encoded key), so the restored state is not the snapshotted one')
